@@ -76,6 +76,7 @@ structure St where
   priorKind : String := "none"
   beta : Rat := 0
   nvg : Nat := 0
+  dones : Bool := false
   rows : Array Row := #[]
   wRange : List Int := []
   weights : Array Rat := #[]
@@ -93,7 +94,7 @@ structure St where
 
 def St.params (s : St) : Params :=
   { numSubsets := s.ns, startSubset := s.ss, numSubiterations := s.numSub, alpha := s.alpha, gamma := s.gamma,
-    upperBound := s.ub, enforceInitialPositivity := s.ep }
+    upperBound := s.ub, enforceInitialPositivity := s.ep, denominatorOnes := s.dones }
 
 def St.build (s : St) : St :=
   match s.problem with
@@ -167,9 +168,12 @@ def stepLine (s : St) (line : String) : St × String :=
   let R (t : String) : Rat := (parseHex t).getD 0
   match toks with
   | "cfg" :: _ :: "dims" :: nz :: ny :: nx :: "ns" :: ns :: "ss" :: ss :: "alpha" :: al :: "gamma" :: ga :: "ub" :: ub
-      :: "prior" :: pk :: "beta" :: be :: "kappa" :: _ :: "add" :: _ :: "nvg" :: nvg :: _ =>
+      :: "prior" :: pk :: "beta" :: be :: "kappa" :: _ :: "add" :: _ :: "nvg" :: nvg :: "dones" :: dones :: _ =>
     ({ nz := N nz, ny := N ny, nx := N nx, ns := I ns, ss := I ss, alpha := R al, gamma := R ga, ub := R ub,
-       priorKind := pk, beta := R be, nvg := N nvg }, "ok")
+       priorKind := pk, beta := R be, nvg := N nvg, dones := dones == "1" }, "ok")
+  | ["defaults"] =>
+    let d := Params.default
+    (s, s!"{if d.enforceInitialPositivity then 1 else 0} {fmtVT d.upperBound 0} {fmtVT d.alpha 0} {fmtVT d.gamma 0} {d.numSubsets} {d.startSubset} {d.numSubiterations} 1 {if d.denominatorOnes then "given" else "computed"}")
   | "weights" :: a :: b :: c :: d :: e :: f :: "|" :: ws =>
     ({ s with wRange := [I a, I b, I c, I d, I e, I f], weights := (ws.map R).toArray }, "ok")
   | "kappa" :: "|" :: ks => ({ s with kappa := some (ks.map R).toArray }, "ok")
@@ -189,13 +193,15 @@ def stepLine (s : St) (line : String) : St × String :=
       -- set_up does not evaluate the Hessian when it refuses: only compute it when needed (and only once per problem)
       match setUp s.params (q.toObjectiveWith [] s.nonIdent.toList) s.start x with
       | none => (s, "err")
-      | some (x', _) =>
-        let s := s.withHess
-        let d0 := ((s.hess.getD #[]).map (fun a => -a)).toList
-        let n := opCount q
+      | some (x', dset) =>
         let tx := List.zipWith (fun a b => if a == b then (0 : Rat) else 4 * eps * absR b + tiny) x x'
-        let td := d0.map (fun d => 4 * eps * (n : Rat) * absR d + tiny)
-        ({ s with denom := d0 }, "ok | " ++ joinVT x' tx ++ " | " ++ joinVT d0 td)
+        if s.dones then ({ s with denom := dset }, "ok | " ++ joinVT x' tx ++ " | unobserved")
+        else
+          let s := s.withHess
+          let d0 := ((s.hess.getD #[]).map (fun a => -a)).toList
+          let n := opCount q
+          let td := d0.map (fun d => 4 * eps * (n : Rat) * absR d + tiny)
+          ({ s with denom := d0 }, "ok | " ++ joinVT x' tx ++ " | " ++ joinVT d0 td)
     | _, _ => (s, "bad-setup")
   | "d0sync" :: "|" :: d =>
     match parseVec d with
@@ -230,8 +236,8 @@ def stepLine (s : St) (line : String) : St × String :=
         else
           let st' := updateEstimate s.params obj s.start st
           -- bound: |λ| + |u| with u the additive update before clamping
-          let x := if first then obj.fillNonIdent before else before
-          let D := if recomputePenalty obj || first then workDenominator obj x s.denom else s.denom
+          let x := currentImage obj first before
+          let D := denomUsed obj first x s.denom
           let zeta := relaxation s.alpha s.gamma st.k s.ns
           let u := List.zipWith (fun gj dj => gj * (s.ns : Rat) / dj * zeta) g D
           let tol := List.zipWith (fun xj uj => 32 * eps * (absR xj + absR uj) + tiny) x u
